@@ -621,6 +621,9 @@ func preconds(in c17in, o c17op, pre c17snap) map[string]bool {
 		}
 		if pre.ch.MasterSegDuration == 0 && o.K == "recv" && in.Tracks[o.Name].Name == pre.ch.MasterTrName {
 			p["master_measuring"] = true
+			if o.Dur == 0 {
+				p["zero_duration"] = true
+			}
 			// if this upload starts the channel, the generator is resized to this window
 			if o.Dur > 0 {
 				wNew := int64(in.W)*tsOf(in.Tracks[o.Name])/o.Dur + 1
